@@ -795,11 +795,35 @@ def struct_members(text, name):
 
 
 # ---------------------------------------------------------------------------------------------------------------- C17-CHUNK
-def chunk_table(chunk_body, letters_t, letters_g):
-    """Decision table of the dtype-vs-format comparison in ProcessTypeChunk.
-    -> (rows {(T, G, size_equal, has_fields): outcome}, description) with outcome in accept / reject / descend."""
-    stmts = P.parse_body(chunk_body)
-    # the variables that hold the size / group derived from the format character
+def _stmt_lists(lst):
+    """every statement list of the parsed body (the top list, block bodies, branch bodies), outermost first"""
+    yield lst
+    for st in lst:
+        for sub in (st.body, st.orelse):
+            if sub is not None:
+                yield from _stmt_lists(P.as_list(sub))
+
+
+def _mentions(text, name):
+    """`name` occurs in C text as a variable of its own (not as a member `x->name` / `x.name`, not as a callee)"""
+    return re.search(r'(?<![\w>.])%s\b(?!\s*\()' % re.escape(name), text) is not None
+
+
+def _cond_ids(text, what):
+    try:
+        return {re.sub(r'\s+', '', x[1]) for x in cexpr.walk(P._parse(text)) if x[0] == 'id'}
+    except cexpr.ParseError:
+        raise AnalysisError('%s: condition %r not parsable' % (what, text))
+
+
+def chunk_region(stmts, chunk_body, what='__Pyx_BufFmt_ProcessTypeChunk'):
+    """The decision region of the dtype-vs-format comparison, found by def-use instead of by the shape of one statement:
+    every branching statement whose condition reads the size / group of the format item (the locals that receive
+    __Pyx_BufFmt_TypeCharTo*Size / TypeCharToGroup, or a local computed from them), every later assignment to those locals, and every
+    branching statement that reads the declared side (`X->size`, `X->typegroup`, `X->fields` for the X compared with them).  The region is the
+    run of sibling statements, in the innermost statement list that holds all of them, from the first to the last such statement: a guard hoisted
+    in front of the comparison, a comparison split in two statements or a flag computed beforehand are all part of it.
+    -> (span, size_var, group_var, declared-side paths, locals assigned inside the span)"""
     size_var = group_var = None
     for m in re.finditer(r'\b(\w+)\s*=\s*__Pyx_BufFmt_TypeCharTo(\w+)\s*\(', chunk_body):
         if m.group(2) in ('NativeSize', 'StandardSize'):
@@ -807,57 +831,99 @@ def chunk_table(chunk_body, letters_t, letters_g):
         elif m.group(2) == 'Group':
             group_var = m.group(1)
     if not size_var or not group_var:
-        raise AnalysisError('__Pyx_BufFmt_ProcessTypeChunk: the locals receiving TypeCharTo*Size / TypeCharToGroup were not found')
-    target = None
-    for s in P.walk(stmts):
-        if s.kind == 'if' and re.search(r'\b%s\b' % re.escape(size_var), s.text) and re.search(r'\b%s\b' % re.escape(group_var), s.text) \
-                and re.search(r'->\s*size\b', s.text) and re.search(r'->\s*typegroup\b', s.text):
-            target = s
-            break
-    if target is None:
-        raise AnalysisError('__Pyx_BufFmt_ProcessTypeChunk: the statement comparing type->size / type->typegroup with the format item was not found')
+        raise AnalysisError('%s: the locals receiving TypeCharTo*Size / TypeCharToGroup were not found' % what)
+    tainted = {size_var, group_var}
+    BRANCHING = ('if', 'while', 'for', 'do', 'switch')
+    relevant, bases = [], set()
+
+    def assigned(st):
+        """plain locals written by a simple statement -> [(name, rhs)]"""
+        t = st.text.strip()
+        d = P.Explorer._declaration(t)
+        if d is not None:
+            return [(n, r) for n, r in d if r is not None]
+        m = P.ASSIGN_ST.match(t)
+        if m and not m.group('decl') and re.fullmatch(r'\w+', m.group('lhs').strip()):
+            return [(m.group('lhs').strip(), m.group('rhs'))]
+        return []
+    for st in P.walk(stmts):
+        if st.kind == 'simple':
+            for name, rhs in assigned(st):
+                if '__Pyx_BufFmt_TypeCharTo' in rhs and name in tainted:
+                    continue                        # the definitions themselves
+                if name in tainted or any(_mentions(rhs, v) for v in tainted) and re.search(r'==|!=|<|>|\?', rhs):
+                    # a later write to the item's size / group, or a flag computed from them
+                    tainted.add(name)
+                    relevant.append(st)
+        elif st.kind in BRANCHING and any(_mentions(st.text, v) for v in tainted):
+            relevant.append(st)
+            for i in _cond_ids(st.text, what):
+                m = re.fullmatch(r'(.+)->(size|typegroup|fields)', i)
+                if m:
+                    bases.add(m.group(1))
+    if not relevant or not bases:
+        raise AnalysisError('%s: no statement compares the size / type group of the format item with the declared type' % what)
+    declared = re.compile(r'(?<![\w>.-])(?:%s)\s*->\s*(?:size|typegroup|fields)\b' % '|'.join(re.escape(b).replace(r'\-\>', r'\s*->\s*') for b in sorted(bases)))
+    for st in P.walk(stmts):
+        if st.kind in BRANCHING and st not in relevant and declared.search(st.text):
+            relevant.append(st)
+    want = {id(s) for s in relevant}
+    best = None
+    for lst in _stmt_lists(stmts):
+        inside = {id(s) for s in P.walk(lst)}
+        if want <= inside:
+            best = lst                              # lists come outermost first: the last hit is the innermost
+    hits = [i for i, s in enumerate(best) if want & {id(x) for x in P.walk([s])}]
+    span = best[hits[0]:hits[-1] + 1]
+    local = set()
+    for st in P.walk(span):
+        if st.kind == 'simple':
+            local.update(n for n, _ in assigned(st))
+    return span, size_var, group_var, bases, local
+
+
+def chunk_table(chunk_body, letters_t, letters_g):
+    """Decision table of the dtype-vs-format comparison in ProcessTypeChunk.
+    -> rows {(T, G, size_equal, has_fields): outcome} with outcome in accept / reject / descend."""
+    what = '__Pyx_BufFmt_ProcessTypeChunk'
+    stmts = P.parse_body(chunk_body)
+    span, size_var, group_var, bases, local = chunk_region(stmts, chunk_body, what)
+    ids = set()
+    for s in P.walk(span):
+        if s.kind in ('if', 'while', 'do', 'switch'):
+            ids |= _cond_ids(s.text, what)
     rows = {}
     for T in letters_t:
         for G in letters_g:
             for same in (True, False):
                 for fields in (True, False):
-                    outs = set()
-                    ex = P.Explorer([target], consts={'NULL': 0})
+                    ex = P.Explorer(span, consts={'NULL': 0})
                     st = P.PState()
-                    # concrete environment: identifiers are bound by their role
-                    ids = set()
-                    for s in P.walk([target]):
-                        if s.kind == 'if':
-                            try:
-                                for x in cexpr.walk(P._parse(s.text)):
-                                    if x[0] == 'id':
-                                        ids.add(x[1])
-                            except cexpr.ParseError:
-                                raise AnalysisError('__Pyx_BufFmt_ProcessTypeChunk: condition %r not parsable' % s.text)
+                    # concrete environment: identifiers are bound by their role; anything else stays symbolic and must not decide the outcome
+                    st.env[size_var] = ('const', 4)
+                    st.env[group_var] = ('const', ord(G))
                     for i in ids:
-                        if i == size_var:
-                            st.env[i] = ('const', 4)
-                        elif i == group_var:
-                            st.env[i] = ('const', ord(G))
-                        elif re.fullmatch(r'[\w>-]+->size', i):
-                            st.env[i] = ('const', 4 if same else 8)
-                        elif re.fullmatch(r'[\w>-]+->typegroup', i):
-                            st.env[i] = ('const', ord(T))
-                        elif re.fullmatch(r'[\w>-]+->fields', i):
-                            st.env[i] = ('const', 1 if fields else 0)
-                        elif i != 'NULL':
-                            raise AnalysisError('__Pyx_BufFmt_ProcessTypeChunk: the comparison reads %s, which the decision table does not model' % i)
+                        m = re.fullmatch(r'(.+)->(size|typegroup|fields)', i)
+                        if m and m.group(1) in bases:
+                            st.env[i] = ('const', {'size': 4 if same else 8, 'typegroup': ord(T), 'fields': 1 if fields else 0}[m.group(2)])
                     try:
-                        res = ex.stmts([target], st)
+                        res = ex.stmts(span, st)
                     except P.Unmodelled as e:
-                        raise AnalysisError('__Pyx_BufFmt_ProcessTypeChunk: %s' % e)
+                        raise AnalysisError('%s: %s' % (what, e))
+                    outs = {}
                     for s1, exit_ in res:
-                        if s1.facts and any(not t.startswith('switch(') for t, _, _ in s1.facts):
-                            raise AnalysisError('__Pyx_BufFmt_ProcessTypeChunk: the comparison depends on %s, not decidable from (typegroup, group, size, fields)' % s1.facts[0][0])
-                        outs.add({'fall': 'accept', 'continue': 'descend', 'return': 'reject'}.get(exit_[0], exit_[0]))
+                        if exit_[0] == 'return' and exit_[1].strip() in ('0', '(0)'):
+                            o = 'accept-return'
+                        else:
+                            o = {'fall': 'accept', 'continue': 'descend', 'return': 'reject'}.get(exit_[0])
+                        if o is None:
+                            raise AnalysisError('%s: the comparison is left by `%s`, which the decision table does not model' % (what, ' '.join(exit_)))
+                        outs.setdefault(o, s1)
                     if len(outs) != 1:
-                        raise AnalysisError('__Pyx_BufFmt_ProcessTypeChunk: comparison not deterministic for T=%s G=%s' % (T, G))
-                    rows[(T, G, same, fields)] = outs.pop()
+                        facts = sorted({t for s1 in outs.values() for t, _, _ in s1.facts if not t.startswith('switch(')})
+                        raise AnalysisError('%s: for declared group %s / format group %s the outcome of the comparison (%s) depends on %s, not decidable from '
+                                            '(typegroup, group, size, fields)' % (what, T, G, ' / '.join(sorted(outs)), ', '.join(facts[:3]) or 'a loop'))
+                    rows[(T, G, same, fields)] = next(iter(outs))
     return rows
 
 
